@@ -278,7 +278,7 @@ public:
         if (pos > size())
             throw std::out_of_range("StringView::copy");
         size_type rsize = std::min(n, size_ - pos);
-        std::copy(data(), data() + rsize, s);
+        std::copy(data() + pos, data() + pos + rsize, s);
         return rsize;
     }
 
